@@ -1,5 +1,6 @@
 """Planner plugin: ILPScheduler (schedulers/ilp_scheduler.py, Gurobi back-end,
-non-batching mode) for the planner clauses of C10, C11, C12, C14.
+non-batching mode) for the planner clauses of C10, C11, C12, C14.  (Batching mode is the
+plugin `ilpbatch.py`, which reuses the world construction, capture and oracles of this module.)
 
 For every generated invocation the plugin
 
